@@ -17,7 +17,8 @@ def main():
         m = json.load(open(meta_path))
         if only and m["name"] not in only:
             continue
-        checks = list(m["checks"].keys()) if all_listed else [m["breaks_property"]]
+        target = m.get("actually_breaks", m["breaks_property"])
+        checks = list(m["checks"].keys()) if all_listed else [target]
         r = sh(f"git -C /repo apply {d}/patch.diff")
         if r.returncode != 0:
             rows.append((m["name"], "patch does not apply"))
@@ -28,12 +29,12 @@ def main():
                 t0 = time.time()
                 rr = sh(f"cd /verif && ./check {c} --tier quick")
                 res[c] = {0: "silent", 1: "VIOLATION", 2: "inconclusive"}.get(rr.returncode, str(rr.returncode)) + f" ({time.time()-t0:.0f}s)"
-            rows.append((m["name"], res))
+            rows.append((m["name"], res, target))
             print(m["name"], res, flush=True)
         finally:
             sh("git -C /repo checkout -- .")
     sh("cd /verif/engine && cargo build --release")
-    missed = [r for r in rows if isinstance(r[1], dict) and not r[1].get(r[0].split("-")[0][:3], "").startswith("VIOLATION")]
+    missed = [r for r in rows if isinstance(r[1], dict) and not r[1].get(r[2], "").startswith("VIOLATION")]
     print(f"\n{len(rows)} seeded changes; target check silent for: {[r[0] for r in missed]}")
     json.dump(rows, open("/verif/seeded/MATRIX.json", "w"), indent=1)
 
